@@ -10,7 +10,7 @@ func C15(c *Ctx) int {
 		fmt.Println("load:", err)
 		return 2
 	}
-	kF, kS, kN := 3, 2, 2
+	kF, kS, kN := 3, 2, 3
 	if c.Thorough() {
 		kF, kS, kN = 4, 3, 3
 	}
